@@ -41,7 +41,8 @@ def strategy(tier):
         ks = None if big else draw(st.lists(st.floats(0, 0.999), min_size=4, max_size=10))
         # counter 'w': fragments only mutate the context in place (no name is ever rebound)
         return {'spec': spec, 'ops': ops, 'ks': ks,
-                'counter': draw(st.sampled_from(['v', 'v', 'w'])),
+                # counter 'o': an attribute of an ordinary object held in the context
+                'counter': draw(st.sampled_from(['v', 'v', 'w', 'o'])),
                 'shadow': draw(st.booleans())}
     return cases()
 
